@@ -348,6 +348,10 @@ def job_scales(name, tier):
                 if chk == "unsat":
                     continue
                 out.append(prove(base + f"/integral_scale==closed_form_integral_of_used_correlation[branch{bi}]", C + [cnd], lift(isc) == l.e / s.e * lift(unit), T, witness_vars=wv, replay=rb))
+                if name == "Matern" and bi == 1:
+                    # the listed finding, pinned: for nu > 20 the library reports the exact-Matern scale (and nothing else)
+                    kn = INT_SCALE[name](opt)[0][1]
+                    out.append(prove(base + "/pinned known deviation: integral_scale(nu>20)==exact-Matern formula", C + [cnd], lift(isc) == l.e / s.e * lift(kn), T, witness_vars=wv, replay=rb))
             out.append(prove(base + "/after integral_scale=I: reported scale==I", C, lift(isc2) == I.e, T, witness_vars=wv, replay=rb))
             out.append(prove(base + "/after integral_scale=I: len_scale*unit==I", C, lift(l2) * lift(isc) == I.e * l.e, T, witness_vars=wv, replay=rb))
         out.append(prove(base + "/percentile_scale: (variogram(x)-nugget)/var==per", C, (lift(vg) - n.e) / v.e == per.e, T, witness_vars=wv, replay=rb))
